@@ -99,6 +99,35 @@ def run_impl_all(mod, cases):
     return [_worker_run(c) for c in cases]
 
 
+FINGERPRINTS = VERIF / "harness" / "fingerprints.json"
+
+
+def source_fingerprint() -> dict:
+    """sha1 of every Python source file of the tree under verification (relative path -> digest)."""
+    import hashlib
+    out = {}
+    root = REPO / "src" / "ropt"
+    for f in sorted(root.rglob("*.py")):
+        if f.name == "version.py":      # generated at install time, not part of the sources
+            continue
+        out[str(f.relative_to(REPO))] = hashlib.sha1(f.read_bytes()).hexdigest()
+    return out
+
+
+def changed_sources() -> list[str] | None:
+    """Files that differ from the fingerprint recorded for the tree the checks were last validated on
+    (harness/fingerprints.json, written by `harness/mk_fingerprints`); None when no fingerprint is recorded.
+    A difference is NOT an alarm: it only makes the quick tier generate more cases (see Check.run)."""
+    if not FINGERPRINTS.exists():
+        return None
+    try:
+        ref = json.loads(FINGERPRINTS.read_text())["files"]
+    except Exception:  # noqa: BLE001
+        return None
+    cur = source_fingerprint()
+    return sorted(k for k in set(ref) | set(cur) if ref.get(k) != cur.get(k))
+
+
 def load_known(prop_id: str):
     data = json.loads(KNOWN_FILE.read_text())
     return {k["id"]: k for k in data.get("known", []) if k["property"] == prop_id}
@@ -484,6 +513,24 @@ class Check:
             cases = self.corpus_cases()
             for c in self.mod.gen_cases(self.tier, rng):
                 cases.append(c)
+            # The source differs from the tree the machinery was validated on: no alarm by itself, but the
+            # quick tier then spends more effort (two further generator seeds, duplicates removed).
+            changed = changed_sources()
+            self.cov["source_fingerprint"] = ("no fingerprint recorded" if changed is None else
+                                              "matches harness/fingerprints.json" if not changed else
+                                              {"differs_in": changed[:20]})
+            extra = getattr(self.mod, "ESCALATE", 2)
+            if changed and self.tier == "quick" and extra:
+                seen = {case_hash({k: v for k, v in c.items() if not k.startswith("_")}) for c in cases}
+                n0 = len(cases)
+                for i in range(1, extra + 1):
+                    for c in self.mod.gen_cases(self.tier, random.Random(self.seed + 7907 * i)):
+                        h = case_hash({k: v for k, v in c.items() if not k.startswith("_")})
+                        if h not in seen:
+                            seen.add(h)
+                            cases.append(c)
+                self.notes.append(f"source differs from the recorded fingerprint in {len(changed)} file(s): "
+                                  f"{len(cases) - n0} additional cases from {extra} further generator seeds")
             recs = self.correspondence(cases, proofs_ok)
             for kid, n in sorted(self.known_hits.items()):
                 print(f"KNOWN-FINDING: property={self.id} {kid} ({n} cases) {self.known[kid]['text']}", flush=True)
